@@ -308,7 +308,9 @@ impl World {
             }
         };
         let native = cfg.native;
-        let init_native: Vec<(String, u128)> = users.iter().map(|n| (n.clone(), bal_of(n))).collect();
+        let mut init_native: Vec<(String, u128)> = users.iter().map(|n| (n.clone(), bal_of(n))).collect();
+        // an account spelled like the first trader but in capital letters holds native coins of its own (C10's letter-case aliases)
+        init_native.push((TRADERS[ALIAS_ATTACKER].to_uppercase(), cfg.trader_balance / 1000));
         let fund_balance = cfg.fund_balance;
         let mut app: PApp = AppBuilder::new()
             .with_bank(InstrBank::new())
@@ -674,6 +676,7 @@ impl World {
         let idx_pool2 = accounts.len() - 1;
         accounts.push(RETIRED_FUND.to_string());
         accounts.push(ENGINE_TYPO.to_string());
+        accounts.push(TRADERS[ALIAS_ATTACKER].to_uppercase());
         let mut contract_set: Vec<String> = vec![engine.to_string(), fund_addr.to_string(), fee_pool.to_string(), fee_pool2.to_string()];
         contract_set.extend(vamms.iter().map(|a| a.to_string()));
         contract_set.extend(oracles.iter().map(|a| a.to_string()));
